@@ -12,7 +12,7 @@ from .c08 import glob_match
 
 ID = "C09"
 LEVEL = "exploration"
-BUDGET = {"quick": {"n": 400, "wall_s": 400}, "thorough": {"n": 20000, "wall_s": 3300}}
+BUDGET = {"quick": {"n": 1200, "wall_s": 400}, "thorough": {"n": 20000, "wall_s": 3300}}
 RULE = ("per case: tree with nesting 0..6, hidden files/dirs, .gitignore/.fdignore (simple forms), file and directory "
         "symlinks (relative, absolute, dangling, cyclic), directory names with regex metacharacters and non-ASCII text; "
         "options drawn from --depth, --hidden, --no-ignore, --min/--max, --name, --path, --exclude (glob, -i, or --regex), "
